@@ -1,5 +1,6 @@
 //! tlsverif: conformance harness binding the TLA+ specification to the compiled crate.
 mod calls;
+mod fuzz;
 mod observe;
 mod project;
 
@@ -74,6 +75,7 @@ fn main() {
     }
     let rc = match args[1].as_str() {
         "run" => cmd_run(&args[2..]),
+        "fuzz" => fuzz::cmd_fuzz(&args[2..]),
         _ => {
             eprintln!("unknown command");
             2
